@@ -3,6 +3,7 @@ import FstVerif.Proofs.Wrappers
 import FstVerif.Proofs.EndToEnd
 import FstVerif.Proofs.Aut
 import FstVerif.Proofs.EofLift
+import FstVerif.Proofs.EofWrap
 /-
 C04 — automaton search. Statements here; proofs in Proofs/Stream.lean and
 Proofs/Seek.lean. The automaton is a universally quantified variable
@@ -220,6 +221,21 @@ theorem C04_set_search_with_state {A : Aut σ} (hg : GoodStore s den) (hr : Repr
         fun kv => (kv.1, A.run A.start kv.1)) :=
   Wrap.setSearchWithState_correct hg hr root hroot hA.1 hA.2 rs
 
+
+/-- the four user-facing searches with a HOOKED automaton (`Map/Set::search(_with_state)` + setters) -/
+theorem C04_wrappers_eof {A : Aut σ} (hg : GoodStore s den) (hr : Represents acc s) (root : Nat)
+    (hroot : root = 0 ∨ ∃ n, (root, n) ∈ s) (hA : ContractEof A) (rs : RangeSpec) :
+    let F := (den root).filter fun kv => lowerOK rs.min kv.1 && upperOK rs.max kv.1 && A.acceptsEof kv.1
+    (∃ N, ∀ fuel, N ≤ fuel → Wrap.mapSearch acc A root rs fuel = some F) ∧
+    (∃ N, ∀ fuel, N ≤ fuel → Wrap.mapSearchWithState acc A root rs fuel =
+        some (F.map fun kv => (kv.1, kv.2, A.run A.start kv.1))) ∧
+    (∃ N, ∀ fuel, N ≤ fuel → Wrap.setSearch acc A root rs fuel = some (F.map (·.1))) ∧
+    (∃ N, ∀ fuel, N ≤ fuel → Wrap.setSearchWithState acc A root rs fuel =
+        some (F.map fun kv => (kv.1, A.run A.start kv.1))) :=
+  ⟨Wrap.mapSearch_correct_eof hg hr root hroot hA.canSound rs,
+   Wrap.mapSearchWithState_correct_eof hg hr root hroot hA.canSound rs,
+   Wrap.setSearch_correct_eof hg hr root hroot hA.canSound rs,
+   Wrap.setSearchWithState_correct_eof hg hr root hroot hA.canSound rs⟩
 
 /-- END TO END at the wrapper level: `Map::search(aut)` / `Map::search_with_state(aut)` with any
 setters, over the BYTES of the file a map builder writes, for every contract-abiding automaton -/
